@@ -106,7 +106,8 @@ Definition to_sum {A} (r : res A) : rerr + A :=
 Definition wt (o : option wtext) : wtext := match o with Some t => t | None => WNone end.
 Definition with_text (m : mconfig) (t : wtext) : mconfig :=
   mkMConfig (mc_syntax m) (mc_snippets m) (mc_variables m) t (mc_max_repeat m) (mc_max_repeat_snip m) (mc_jsx m)
-            (mc_context_name m) (mc_inline m) (mc_reverse_attrs m) (mc_href m).
+            (mc_context_name m) (mc_inline m) (mc_reverse_attrs m) (mc_href m)
+            (mc_bem m) (mc_bem_element m) (mc_bem_modifier m) (mc_context_class m).
 
 Definition mk_world : world :=
   mkWorld wtext text_truthy (xconfig * str) unit unit (fun _ _ => true) unit (list anode) str rerr
@@ -114,7 +115,7 @@ Definition mk_world : world :=
                    to_sum (parse_abbr (mc_jsx m) (mkCenv (wt text) (mc_variables m) (mc_href m)) (mc_max_repeat m) (snd a)))
     (fun a text tree => let cfg := with_text (xc_m (fst a)) (wt text) in
                         to_sum (let* resolved := walk_resolve (S (length (mc_snippets cfg))) cfg [] tree in
-                                Ok (transform_list cfg resolved)))
+                                transform_list cfg resolved))
     (fun _ _ => O)
     (fun a tree => inr (os_value (fs_out (stringify_markup (mc_syntax (xc_m (fst a))) (xc_o (fst a)) tree))))
     (fun _ => inr tt) (fun _ _ => inl RFuel) (fun _ t => t).
